@@ -93,6 +93,9 @@ for _n, _t in _OPEN:
 K("reader_item_vector_contains", ["C05"], RDF,
   "Reader::item_vector / contains_item return exactly what the raw item entry holds (bit-for-bit), None/false when absent",
   "store: 2 arbitrary entries + 1 leaf with arbitrary bytes; dim 2", site="Reader::item_vector")
+K("query_builder_setters", ["C03"], RDF,
+  "Reader::nns + QueryBuilder::{search_k, oversampling, candidates} store exactly the given count, budget, oversampling and candidate filter (an empty filter stays a filter)",
+  "all counts, budgets, oversamplings (non-zero), all 64-bit candidate sets", site="QueryBuilder setters", timeout=300)
 K("query_rejections", ["C19", "C03"], RDF,
   "by_vector with len != dim => InvalidVecDimension{expected: dim, received: len}; by_item(unknown id) => Ok(None)",
   "dim 1..=4, len 0..=6, store: 3 arbitrary entries", site="QueryBuilder::by_vector/by_item")
